@@ -564,6 +564,15 @@ def rule_fast_path(ck, facts):
             if eq_pos is None:
                 continue
             clones = [e for e in p.events[eq_pos + 1:] if e[0] == "call" and e[1].split("::")[-1] in ("clone", "to_vec", "to_owned") and "u64" in (e[3][4].get("full") or "")]
+            # only a copy that is *installed* counts: it reaches the runtime's state setter / the new machine's storage
+            setters = [e for e in p.events[eq_pos + 1:] if e[0] == "call" and e[1].split("::")[-1] in ("set_global_state_data",)]
+            if setters:
+                def _root(x):
+                    while isinstance(x, tuple) and x and (x[0] in ("ref", "deref") or (x[0] == "call" and x[1].split("::")[-1] in ("deref", "as_slice", "as_ref", "borrow") and x[2])):
+                        x = x[1] if x[0] in ("ref", "deref") else x[2][0]
+                    return x
+                installed = [_root(e[2][-1]) for e in setters]
+                clones = [c for c in clones if any(i == ("call", c[1], c[2]) for i in installed)]
             if not clones:
                 continue
             n_copy += 1
@@ -586,6 +595,75 @@ def rule_fast_path(ck, facts):
             ck.bad(R, key, "%s compares the old and the new layout but also keeps the old state buffer verbatim on a path where they differ: a swap in which no subtree survives (empty patch list) installs the stale words under the new layout instead of starting from zero with the new size" % f.short, f.where(bad))
 
 
+def rule_source_size(ck, facts):
+    """the runtimes size their state storage lazily (first dsp call); a migration may be requested before that"""
+    from ..rules.guards import Terms, strip
+    R = "C08.apply-source"
+    ck.rule(R, "where a runtime applies migration patches, the old buffer it reads from has been brought to the old layout's total size first: a `resize(total_size, 0)` of that buffer — unconditional, or under `len < total_size` — lies on every path to the call (the storage gets its size only at the first dsp call, so a swap at time 0 would read past an empty buffer)")
+    sites = []
+    for crate in (roles.LANG,):
+        for f in facts.crate(crate).fns:
+            if f.kind == "promoted" or "::test" in f.path or "runtime::" not in f.path:
+                continue
+            for b, t in f.calls():
+                c = callee(t) or ""
+                if c.endswith("patch::apply_patches") or c.endswith("apply_state_storage_patch_plan"):
+                    sites.append((f, b, t, 1 if c.endswith("apply_patches") else 0))
+    ck.floor(R, "runtime_patch_application_sites", len(sites), 2)
+    for f, b, t, argi in sites:
+        T = Terms(f)
+        src = strip(T.op(t[5][argi]))
+        # unwrap slice views of a Vec: as_slice / deref results are already followed by Terms; keep the root
+        dom = dominators(f)
+        ok = False
+        detail = None
+        for b2, t2 in f.calls():
+            c2 = callee(t2) or ""
+            if c2.split("::")[-1] != "resize" or "Vec" not in c2 or len(t2[5]) < 2:
+                continue
+            tgt = strip(T.op(t2[5][0]))
+            if tgt != src:
+                continue
+            size_term = repr(T.op(t2[5][1]))
+            # the size must come from a total_size() call
+            di = T.di
+            r = di.resolve(t2[5][1])
+            from_total = False
+            cur = t2[5][1]
+            for _ in range(8):
+                r = di.resolve(cur)
+                if r[0] == "call":
+                    if (callee(r[1]) or "").split("::")[-1] == "total_size":
+                        from_total = True
+                    break
+                if r[0] == "rv" and r[1][5][0] in ("cast", "un"):
+                    cur = r[1][5][2]
+                    continue
+                if r[0] == "rv" and r[1][5][0] == "use":
+                    cur = r[1][5][1]
+                    continue
+                break
+            if not from_total:
+                continue
+            if b2 in dom.get(b, ()):
+                ok, detail = True, "unconditional resize"
+                break
+            # conditional: the branch that guards the resize dominates the call and compares len(buffer) with the size
+            for d in dom.get(b2, ()):
+                if d == b2 or d not in dom.get(b, ()) or f.term(d)[KIND] != "switch" or f.term(d)[4][0] not in ("cp", "mv"):
+                    continue
+                c = T.op(f.term(d)[4])
+                if c[0] == "bin" and c[1] in ("lt", "gt", "le", "ge", "ne") and (("len", src) in (c[2], c[3])):
+                    ok, detail = True, "resize under a length test"
+            if ok:
+                break
+        key = "source|%s" % f.short.split("::")[-1]
+        if ok:
+            ck.ok(R, key, {"fn": f.short, "old_buffer": detail})
+        else:
+            ck.bad(R, key, "%s applies migration patches reading from a buffer that was not brought to the old layout's size: the state storage is empty until the first dsp call, so a hot swap requested before it makes apply_patches read past the end of the old buffer (panic in the audio thread) instead of migrating from all-zero state" % f.short, f.where(t))
+
+
 def run(ck, facts, tier):
     ck.floor("C08.anchor", "state_tree_bodies", len(facts.crate(ST).fns), 40)
     rule_patch_sites(ck, facts)
@@ -594,5 +672,6 @@ def run(ck, facts, tier):
     rule_apply(ck, facts)
     rule_addressing(ck, facts)
     rule_fast_path(ck, facts)
+    rule_source_size(ck, facts)
     ck.not_decided("optimality of the greedy backtrack ('every surviving subtree is carried over') beyond the recurrence/backtrack shape rules")
     ck.not_decided("'never writes a destination word twice' for arbitrary trees (follows from monotone matching + prefix-sum addressing, which are checked as shapes, not proved)")
